@@ -356,6 +356,73 @@ def check_line(case):
     return {'nt': m >= 2 or n >= 2, 'cls': ['line:%dx%d' % (n, m), 'line-dom:' + dom] + [c for c in info.get('cls', ()) if c.startswith('fn:')]}
 
 
+# ---------------------------------------------------------------------------------------------
+# frames reached by growth: a FrameGO of narrow columns grown by wider columns of the same kind (nothing read in between);
+# reductions are judged against NumPy on each line of the true cells (no missing values, functions every row dtype supports)
+
+GROWN_FUNCS = ('sum', 'min', 'max', 'iloc_min', 'iloc_max', 'loc_max', 'cumsum', 'mean')   # (no prod: where an int64 product overflows, rows held as objects do not wrap)
+
+
+@st.composite
+def grown_cases(draw):
+    fn = draw(st.sampled_from(GROWN_FUNCS))
+    axis = draw(st.integers(0, 1))
+    fam = draw(st.sampled_from([('int8', 'int64'), ('float32', 'float64'), ('int8', 'int64'), ('uint8', 'int64'), ('int64', 'int64')]))
+    how = draw(st.sampled_from(['setitem', 'extend', 'extend_items']))
+    n = draw(st.integers(1, 4))
+    m0, m1 = draw(st.integers(1, 3)), draw(st.integers(1, 2))
+    narrow = [draw(st.lists(st.integers(1, 9), min_size=n, max_size=n)) for _ in range(m0)]
+    big = {'int64': [1000, 70000, -300, 2 ** 40 + 3], 'float64': [0.1, 16777217.0, 1e-3, 2.0 ** 60]}[fam[1]]
+    wide = [draw(st.lists(st.sampled_from(big), min_size=n, max_size=n)) for _ in range(m1)]
+    return {'fn': fn, 'axis': axis, 'fam': fam, 'how': how, 'n': n, 'narrow': narrow, 'wide': wide, 'skipna': draw(st.booleans()), 'one_block': draw(st.booleans())}
+
+
+def check_grown(case):
+    fn, axis, n = case['fn'], case['axis'], case['n']
+    d0, d1 = case['fam']
+    a0 = [np.array(c, dtype=d0) for c in case['narrow']]
+    a1 = [np.array(c, dtype=d1) for c in case['wide']]
+    first = np.column_stack(a0) if (case['one_block'] and len(a0) > 1) else None
+    labels = ['c%d' % j for j in range(len(a0) + len(a1))]
+    index = ['r%d' % i for i in range(n)]
+    if first is not None:
+        f = sf.FrameGO(gen.freeze(first), index=index, columns=labels[:len(a0)])
+    else:
+        f = sf.FrameGO.from_items(zip(labels[:len(a0)], [gen.freeze(a) for a in a0]), index=index)
+    new = list(zip(labels[len(a0):], [gen.freeze(a) for a in a1]))
+    if case['how'] == 'setitem':
+        for k, a in new:
+            f[k] = a
+    elif case['how'] == 'extend_items':
+        f.extend_items(new)
+    else:
+        f.extend(sf.Frame.from_items(new, index=index))
+    cols = a0 + a1
+    wide_dt = np.result_type(*[c.dtype for c in cols])
+    lines = [c.astype(wide_dt) for c in cols] if axis == 0 else [np.array([c[i] for c in cols], dtype=wide_dt) for i in range(n)]
+    other = labels if axis == 1 else index   # labels of the axis reduced along
+    npf = {'iloc_min': np.argmin, 'iloc_max': np.argmax, 'loc_max': np.argmax}.get(fn) or getattr(np, fn)
+    with np.errstate(all='ignore'):
+        want = [npf(l) for l in lines]
+    if fn == 'loc_max':
+        want = [other[int(p)] for p in want]
+    kw = {} if fn == 'cumsum' else {'skipna': case['skipna']}
+    r = lib(lambda: getattr(f, fn)(axis=axis, **kw))
+    what = 'FrameGO of %d %s column(s) grown (%s) by %d %s column(s): %s(axis=%d)' % (len(a0), d0, case['how'], len(a1), d1, fn, axis)
+    if isinstance(r, Raised):
+        raise Failure('raised:%s' % r.cls, '%s raised %r' % (what, r.exc), r.where)
+    if fn == 'cumsum':
+        got = [arr_list(c) for c in obs.frame_cols(r)] if axis == 0 else [arr_list(row) for row in r.values]
+        want = [arr_list(w) for w in want]
+        ok = len(got) == len(want) and all(len(g) == len(w) and all(_close(x, y, 1e-12) for x, y in zip(g, w)) for g, w in zip(got, want))
+    else:
+        got = arr_list(r.values)
+        ok = len(got) == len(want) and all((eq(g, w) if fn == 'loc_max' else _close(g, w, 1e-12)) for g, w in zip(got, want))
+    if not ok:
+        raise Failure('value', '%s -> %s; NumPy on each line of the true cells gives %s' % (what, short(got, 200), short([arr_list(w) if hasattr(w, 'tolist') and np.ndim(w) else w for w in want], 200)))
+    return {'nt': d0 != d1, 'cls': ['grown:' + fn, 'grown-axis:%d' % axis, 'grown-fam:%s>%s' % (d0, d1), 'grown-how:' + case['how']]}
+
+
 SUBS = [
     Sub('reduce', cases(), check, quick=12000, thorough=120000, tag=tag,
         rule='frame.f(axis, skipna) vs NumPy on each column/row alone'),
@@ -363,4 +430,6 @@ SUBS = [
         rule='complete enumeration of single-row / single-column frames over 5 column kinds, both layouts, every function, skipna, axis'),
     Sub('dt_logical', None, check_dt_logical, quick=0, thorough=0, enum=enum_dt_logical,
         rule='all/any over multi-block datetime64 frames with a primed allocator (regression probe for uninitialised results)'),
+    Sub('grown', grown_cases(), check_grown, quick=2400, thorough=16000,
+        rule='reductions over a FrameGO of narrow columns grown by wider columns of the same kind (setitem / extend / extend_items) vs NumPy on each line of the true cells'),
 ]
